@@ -244,9 +244,147 @@ Fixpoint trace (s : st) (l : list op) : list (res N * list str) :=
   end.
 End World.
 
-(* the commands the dispatcher list answers to *)
-Definition answers (cbs : list cb) (cmd : str) : bool :=
-  existsb (fun c => existsb (seq_eqb cmd) (ccmds c)) cbs.
+(* ------------------------------------------------------------------ *)
+(* several Irc objects (networks).  Irc.__init__(network, callbacks=_callbacks) stores a reference
+   to a list object; by default every Irc gets the SAME module-level list irclib._callbacks
+   (reference 0 below).  An operation issued through one Irc reads and writes the list object its
+   `self.callbacks` refers to.  gen.T20.CALLBACKS_WRITES is the regenerated inventory of every
+   write to self.callbacks in class Irc: if none of them rebinds the attribute, the write goes to
+   the shared object and every handle sees it; a rebinding write would leave the issuing handle
+   with a private new list object. *)
+Definition never_rebound : bool :=
+  forallb (fun w => negb (N.eqb (snd w) 3)) gen.T20.CALLBACKS_WRITES.
+
+Record bot := Bot { b_heap : list (N * list cb);      (* list objects: reference -> contents *)
+                    b_refs : list (N * N);            (* Irc handle -> reference held in self.callbacks *)
+                    b_next : N;                       (* callback object counter *)
+                    b_nref : N;                       (* next fresh reference *)
+                    b_nirc : N }.                     (* next Irc handle *)
+
+Fixpoint alookup {A} (k : N) (l : list (N * A)) : option A :=
+  match l with [] => None | (k', v) :: t => if N.eqb k k' then Some v else alookup k t end.
+Fixpoint aset {A} (k : N) (v : A) (l : list (N * A)) : list (N * A) :=
+  match l with
+  | [] => [(k, v)]
+  | (k', v') :: t => if N.eqb k k' then (k', v) :: t else (k', v') :: aset k v t
+  end.
+
+Definition deref (b : bot) (r : N) : list cb := match alookup r (b_heap b) with Some l => l | None => [] end.
+(* irc.callbacks as seen through handle h *)
+Definition view (b : bot) (h : N) : list cb :=
+  match alookup h (b_refs b) with Some r => deref b r | None => [] end.
+
+Inductive bop :=
+| NewIrc                         (* irclib.Irc(network): default callbacks=_callbacks *)
+| Via (h : N) (x : op).          (* operation x issued through Irc handle h *)
+
+Section BotWorld.
+Variable world : list pspec.
+Definition bstep (b : bot) (y : bop) : bot * res N :=
+  match y with
+  | NewIrc => (Bot (b_heap b) (b_refs b ++ [(b_nirc b, 0)]) (b_next b) (b_nref b) (N.succ (b_nirc b)), Ok 0)
+  | Via h x =>
+      match alookup h (b_refs b) with
+      | None => (b, Raise OtherError)
+      | Some r =>
+          let '(s', res) := step world (St (deref b r) (b_next b)) x in
+          if never_rebound then
+            (Bot (aset r (s_cbs s') (b_heap b)) (b_refs b) (s_next s') (b_nref b) (b_nirc b), res)
+          else
+            (Bot (aset (b_nref b) (s_cbs s') (b_heap b)) (aset h (b_nref b) (b_refs b)) (s_next s')
+                 (N.succ (b_nref b)) (b_nirc b), res)
+      end
+  end.
+Fixpoint bsteps (b : bot) (l : list bop) : bot :=
+  match l with [] => b | y :: t => bsteps (fst (bstep b y)) t end.
+End BotWorld.
+Definition bot0 : bot := Bot [(0, [])] [] 0 1 0.
+
+(* ------------------------------------------------------------------ *)
+(* command resolution: src/callbacks.py  NestedCommandsIrcProxy.findCallbacksForArgs / finalEval,
+   Commands.getCommand / isCommandMethod for plugins without sub-command groups (self.cbs = []) and
+   without disabled commands.  [args] is the token list after map(canonicalName, args). *)
+Section Dispatch.
+Variable canon : str -> str.                 (* callbacks.canonicalName *)
+
+(* supybot.commands.defaultPlugins: registered command -> plugin name, and importantPlugins *)
+Record cfg := Cfg { c_defaults : list (str * str); c_important : list str }.
+
+(* isCommandMethod(name): a command method of that name exists ([ccmds] lists them, canonical) *)
+Definition is_cmd (c : cb) (n : str) : bool := existsb (seq_eqb n) (ccmds c).
+Definition cb_canon (c : cb) : str := canon (cname c).     (* cb.canonicalName() *)
+
+(* cb.getCommand(args): the returned list is a prefix of args; this is its length *)
+Definition get_command (c : cb) (args : list str) : nat :=
+  match args with
+  | [] => O
+  | first :: rest =>
+      match rest with
+      | second :: _ =>
+          (* first == self.canonicalName() and len(args) > 1: getCommand(args[1:], stripOwnName=False) *)
+          if seq_eqb first (cb_canon c) && is_cmd c second then 2%nat
+          else if is_cmd c first then 1%nat else O
+      | [] => if is_cmd c first then 1%nat else O
+      end
+  end.
+
+(* the loop `for cb in self.irc.callbacks: L = cb.getCommand(args); if L and L >= maxL: ...`
+   (L >= maxL on two prefixes of args is the comparison of their lengths) *)
+Fixpoint fc_loop (cbs : list cb) (args : list str) (maxl : nat) (acc : list (cb * nat))
+  : nat * list (cb * nat) :=
+  match cbs with
+  | [] => (maxl, acc)
+  | c :: t =>
+      let l := get_command c args in
+      if Nat.ltb 0 l && Nat.leb maxl l then fc_loop t args l (acc ++ [(c, l)])
+      else fc_loop t args maxl acc
+  end.
+
+Definition cb_in (c : cb) (l : list cb) : bool := in_ids (cid c) l.
+
+(* 2. `defaultPlugins.get(cmd)()` -> irc.getCallback(name) -> `if cb in cbs` *)
+Definition default_cb (g : cfg) (cbs sel : list cb) (cmd : str) : option cb :=
+  match dict_get cmd (c_defaults g) with
+  | None => None                                  (* NonExistentRegistryEntry *)
+  | Some [] => None
+  | Some dp => match get_callback cbs dp with
+               | Some c => if cb_in c sel then Some c else None
+               | None => None
+               end
+  end.
+
+(* the special case len(maxL) == 1 *)
+Definition tie_rules (g : cfg) (cbs sel : list cb) (cmd : str) : list cb :=
+  (* 1. a callback named like the command wins *)
+  match find (fun c => seq_eqb (cb_canon c) cmd) sel with
+  | Some c => [c]
+  | None =>
+      (* 2. a configured default plugin, if it is one of the candidates *)
+      match default_cb g cbs sel cmd with
+      | Some c => [c]
+      | None =>
+          (* 3. exactly one important plugin among the candidates *)
+          match filter (fun c => existsb (seq_eqb (cb_canon c)) (map canon (c_important g))) sel with
+          | [c] => [c]
+          | _ => sel
+          end
+      end
+  end.
+
+Definition find_callbacks (g : cfg) (cbs : list cb) (args : list str) : nat * list cb :=
+  let '(maxl, acc) := fc_loop cbs args 0 [] in
+  let sel := map fst (filter (fun p => Nat.eqb (snd p) maxl) acc) in
+  if Nat.eqb maxl 1 then (maxl, tie_rules g cbs sel (hd [] args)) else (maxl, sel).
+
+(* finalEval: no candidate -> invalid command; several -> the ambiguity error; one -> called *)
+Inductive outcome := Invalid | Ambiguous (l : list cb) | Call (c : cb) (n : nat).
+Definition final_eval (g : cfg) (cbs : list cb) (args : list str) : outcome :=
+  match find_callbacks g cbs args with
+  | (_, []) => Invalid
+  | (n, [c]) => Call c n
+  | (_, l) => Ambiguous l
+  end.
+End Dispatch.
 End Model.
 
 (* ------------------------------------------------------------------ *)
@@ -282,9 +420,22 @@ Definition gOp (v : value) : op :=
 
 Definition st0 : st := St [] 0.
 
+(* canonicalName on names without trailing specials: drop TAB - _ SPACE, lower-case *)
+Definition canon_ascii (s : str) : str :=
+  lower_ascii (filter (fun c => negb (N.eqb c 9 || N.eqb c 45 || N.eqb c 95 || N.eqb c 32)) s).
+Definition gCfg (v : value) : cfg :=
+  Cfg (map (fun kv => (gS (nth_v 0 kv), gS (nth_v 1 kv))) (gL (nth_v 0 v))) (gLS (nth_v 1 v)).
+Definition vOutcome (o : outcome) : value :=
+  match o with
+  | Invalid => L [I 0%Z]
+  | Ambiguous l => L [I 1%Z; vLS (map cname l)]
+  | Call c n => L [I 2%Z; vS (cname c); vN (N.of_nat n)]
+  end.
+
 (* run: (op payload)
    op 0: (world ops) -> per operation ((0 reply)|(1 exn), names after it)
-   op 1: (world ops cmds) -> for each cmd, whether the final dispatcher list answers it *)
+   op 1: (world ops cfg argss) -> for each canonical token list, what the dispatcher resolves it to
+         in the final callbacks list: (0) invalid | (1 names) ambiguous | (2 name prefix-length) *)
 Definition run (v : value) : value :=
   let payload := nth_v 1 v in
   let w := map gSpec (gL (nth_v 0 payload)) in
@@ -292,6 +443,17 @@ Definition run (v : value) : value :=
   match gN (nth_v 0 v) with
   | 0 => L (map (fun rn => L [vR vN (fst rn); vLS (snd rn)]) (trace lower_ascii w st0 ops))
   | 1 => let s := steps lower_ascii w st0 ops in
-         L (map (fun c => vB (answers (s_cbs s) c)) (gLS (nth_v 2 payload)))
+         let g := gCfg (nth_v 2 payload) in
+         L (map (fun a => vOutcome (final_eval lower_ascii canon_ascii g (s_cbs s) (gLS a)))
+                (gL (nth_v 3 payload)))
+  | 2 =>
+      (* (world ops via nlate): two Irc objects first, operation i issued through handle via[i], then
+         nlate more Irc objects -> the callback names every handle sees at the end *)
+      let via := map gN (gL (nth_v 2 payload)) in
+      let nlate := N.to_nat (gN (nth_v 3 payload)) in
+      let bops := [NewIrc; NewIrc] ++ map (fun hx => Via (fst hx) (snd hx)) (combine via ops)
+                  ++ repeat NewIrc nlate in
+      let b := bsteps lower_ascii w bot0 bops in
+      L (map (fun hr => vLS (map cname (view b (fst hr)))) (b_refs b))
   | _ => L []
   end.
